@@ -44,6 +44,8 @@ func (q sreqCase) pathMethod() (string, string) {
 		return "Arith", "Mul"
 	case "pooled":
 		return "ArithP", "Mul"
+	case "pooledv": // the argument is taken BY VALUE; its pointer type implements Reset, so the object is pooled all the same
+		return "ArithV", "Mul"
 	case "func":
 		return "Fn", "mul"
 	case "funcp": // a registered function whose argument / reply types are pooled (implement Reset)
@@ -59,7 +61,7 @@ func (q sreqCase) pathMethod() (string, string) {
 
 func (q sreqCase) target() string {
 	switch q.style {
-	case "method", "pooled":
+	case "method", "pooled", "pooledv":
 		return "method"
 	case "func", "funcp":
 		return "func"
@@ -149,7 +151,7 @@ func (q sreqCase) modelTok(rid int) string {
 		h = "f900"
 	}
 	// reflected handlers set one response metadata entry (trace-id) for even request ids, before doing anything else
-	rm := rid%2 == 0 && (q.style == "method" || q.style == "pooled" || q.style == "func" || q.style == "funcp")
+	rm := rid%2 == 0 && (q.style == "method" || q.style == "pooled" || q.style == "pooledv" || q.style == "func" || q.style == "funcp")
 	return fmt.Sprintf("R:%d:%d:%d:%s:%s:%d:%s:%s:%s:%s:%s:%s:%d:%s", q.conn, rid, q.seq, path, meth, q.ser, b(q.hb), b(q.ow),
 		q.target(), b(q.ser == 1), b(dec), h, q.a*q.effB(), b(rm))
 }
@@ -742,7 +744,7 @@ func genSreq(prop string, r *common.Rand, nconn int) sreqCase {
 	if r.Chance(20) {
 		q.seq = r.U64()
 	}
-	q.style = []string{"method", "method", "pooled", "pooled", "func", "funcp", "router", "nosvc", "nometh"}[r.Intn(9)]
+	q.style = []string{"method", "method", "pooled", "pooled", "pooledv", "func", "funcp", "router", "nosvc", "nometh"}[r.Intn(10)]
 	failP := 25
 	if prop == "C07" {
 		failP = 60
@@ -761,7 +763,7 @@ func genSreq(prop string, r *common.Rand, nconn int) sreqCase {
 			q.style = []string{"nosvc", "nometh"}[r.Intn(2)]
 		}
 	}
-	if q.mode == "ok" && r.Chance(12) && (q.style == "method" || q.style == "pooled" || q.style == "func" || q.style == "funcp") {
+	if q.mode == "ok" && r.Chance(12) && (q.style == "method" || q.style == "pooled" || q.style == "pooledv" || q.style == "func" || q.style == "funcp") {
 		q.mode = "veto"
 	}
 	if r.Chance(25) {
@@ -812,7 +814,7 @@ func runSrv(prop string, r *common.Rand, tier string, o *common.Out, replay stri
 			rounds = 200
 		}
 		for i := 0; i < rounds; i++ {
-			for _, style := range []string{"method", "pooled", "func", "funcp"} {
+			for _, style := range []string{"method", "pooled", "pooledv", "func", "funcp"} {
 				mk := func(seq uint64, a, b int, omit, ow bool) sreqCase {
 					return sreqCase{conn: 0, seq: seq, style: style, ser: 1, a: a, b: b, omitB: omit, ow: ow, mode: "ok"}
 				}
@@ -852,6 +854,35 @@ func runSrv(prop string, r *common.Rand, tier string, o *common.Out, replay stri
 			for _, style := range []string{"method", "pooled", "func", "router"} {
 				k++
 				srvAsyncWrite(o, fmt.Sprintf("async%d", k), pool, style)
+			}
+		}
+	}
+	if prop == "C04" || prop == "C07" {
+		// systematic matrix: every dispatch style x every way a request can end x one-way / two-way, each followed by
+		// an ordinary request on the same connection (what a one-way request must NOT produce is a frame)
+		k := 0
+		for _, style := range []string{"method", "pooled", "pooledv", "func", "funcp", "router", "nosvc", "nometh"} {
+			for _, end := range []string{"ok", "err", "panic", "veto", "badjson", "ser9"} {
+				for _, ow := range []bool{false, true} {
+					if end == "veto" && (style == "router" || style == "nosvc" || style == "nometh") {
+						continue
+					}
+					q := sreqCase{conn: 0, seq: 41, style: style, ser: 1, a: 3, b: 4, mode: "ok", ow: ow}
+					switch end {
+					case "err", "panic":
+						q.mode, q.text = end, 1
+					case "veto":
+						q.mode = "veto"
+					case "badjson":
+						q.badJSON = true
+					case "ser9":
+						q.ser = 9
+					}
+					k++
+					reqs := []sreqCase{q, {conn: 0, seq: 42, style: "method", ser: 1, a: 5, b: 6, mode: "ok"}}
+					srvRunCase(o, fmt.Sprintf("mx%d", k), 1, reqs, []int{0, 1}, k%3 == 0, false)
+					o.Count("style-by-ending-matrix")
+				}
 			}
 		}
 	}
